@@ -257,8 +257,8 @@ func (e *Engine) solveOne(common, base string, o *Oblig, cfg solveCfg) {
 			// the incremental batch could not decide it): a slow or loaded machine must not turn a
 			// provable obligation into an alarm
 			t := cfg.timeoutSec
-			if t < 60 {
-				t = 60
+			if t < 90 {
+				t = 90
 			}
 			if v, err := strconv.Atoi(os.Getenv("VERIF_PORTFOLIO_SEC")); err == nil && v > 0 {
 				t = v // development only (mutation campaign): never set by the registered commands
